@@ -302,6 +302,11 @@ fn domain(info: &KeyInfo, default_text: &Option<String>) -> Vec<(String, Exp)> {
             }
             v.push(("".into(), Exp::Either));
             v.push(("no_such_variant_xyz".into(), Exp::Reject));
+            // ExplainAnalyzeCategories is a list-valued option: proper subsets of the categories are reported as
+            // written (only adjacent duplicates are merged), never widened to `all`
+            if vars.contains(&"all") && vars.contains(&"none") {
+                v.extend(same(&["rows", "rows,bytes", "rows,bytes,timing", "rows,bytes,rows,bytes", "timing,rows,timing,rows"]));
+            }
             v
         }
         Ty::Opaque => vec![("".into(), Exp::Either), ("x".into(), Exp::Either)],
